@@ -86,7 +86,7 @@ func run(c *vf.Ctx) {
 		replay(c)
 		return
 	}
-	c.SetRule("evaluations = oracle verdicts: one per executed valuenotifier history step that is a Wait (sequential enumeration: every history up to the tier's length over {Listener(v),Notify(v),Deregister(l),Wait(l),Wait(l) with an already cancelled context}, 2 values, <=3 listeners per value, each history executed on a fresh Notifier and only its last step judged, so every (history, step) pair is judged once), one per gated schedule, one per Wait of a concurrent notifier round, one per (Trigger, hook) pair of an event round (concurrent rounds and the deterministic single-goroutine scenarios in which a hook's callback unhooks itself / its successor / a later / an earlier hook, hooks a new one or re-links a linked event while the Trigger is walking the hooks – all combinations for 2..5 hooks, Event/Event1/Event2, with and without a hook whose WithMaxTriggerCount is exhausted in that Trigger), one per executed trigger-counting history (ev_count.go: histories over Hook/limited Hook on a target and a linked event, Unhook, Trigger of either, LinkTo/unlink, for events with and without WithMaxTriggerCount and all arities Event..Event9, every Trigger's delivered calls and after every step the exported TriggerCount/WasTriggered/MaxTriggerCount/MaxTriggerCountReached of both events and all hooks compared with a model that counts every Trigger call, also those made while no hook is attached; all histories up to the tier's length plus seeded longer ones), one per hook of a concurrent hookless/hooked phase round or limit ladder round, one per promise callback. distinct_nontrivial = distinct sequential histories whose judged step is a Wait on a listener that was created after a Notify of the same value (the re-created-listener pattern the repository test never builds) plus distinct concurrent round configurations (kind/goroutine counts/build) in which at least one pair of constrained operations overlapped on the logical clock")
+	c.SetRule("evaluations = oracle verdicts: one per executed valuenotifier history step that is a Wait (sequential enumeration: every history up to the tier's length over {Listener(v),Notify(v),Deregister(l),Wait(l),Wait(l) with an already cancelled context}, 2 values, <=3 listeners per value, each history executed on a fresh Notifier and only its last step judged, so every (history, step) pair is judged once), one per gated schedule, one per Wait of a concurrent notifier round, one per (Trigger, hook) pair of an event round (concurrent rounds and the deterministic single-goroutine scenarios in which a hook's callback unhooks itself / its successor / a later / an earlier hook, hooks a new one or re-links a linked event while the Trigger is walking the hooks – all combinations for 2..5 hooks, Event/Event1/Event2, with and without a hook whose WithMaxTriggerCount is exhausted in that Trigger), one per executed trigger-counting history (ev_count.go: histories over Hook/limited Hook on a target and a linked event, Unhook, Trigger of either, LinkTo/unlink, for events with and without WithMaxTriggerCount and all arities Event..Event9, every Trigger's delivered calls and after every step the exported TriggerCount/WasTriggered/MaxTriggerCount/MaxTriggerCountReached of both events and all hooks compared with a model that counts every Trigger call, also those made while no hook is attached; all histories up to the tier's length plus seeded longer ones), one per hook of a concurrent hookless/hooked phase round or limit ladder round, one per promise callback, one per judged (call, hook) pair / callback / Wait of the disciplines part (disc*.go: single-goroutine cases drawn from the seed in which option slices share a backing array with sibling slices, trigger arguments are pointers/slices/maps that hooks scribble on, hooks trigger their own event again, promise callbacks call OnTrigger/Trigger/unsubscribe, a context's Done() calls into the notifier, and hooks / pre-trigger functions / promise callbacks / contexts panic and the object is used again). distinct_nontrivial = distinct sequential histories whose judged step is a Wait on a listener that was created after a Notify of the same value (the re-created-listener pattern the repository test never builds) plus distinct concurrent round configurations (kind/goroutine counts/build) in which at least one pair of constrained operations overlapped on the logical clock")
 	maxLen := c.Pick(7, 8)
 	shards := 16
 	workers := runtime.NumCPU()
@@ -116,6 +116,9 @@ func run(c *vf.Ctx) {
 			}
 		}
 	}
+	// the three workload disciplines (disc*.go): one plain, timer-free child that is restarted behind a dead-locked case
+	discDone := make(chan struct{})
+	go func() { defer close(discDone); discPart(c) }()
 	vf.Parallel(len(jobs), workers, func(i int) {
 		o := jobs[i].o
 		res := c.RunChild(o)
@@ -140,6 +143,7 @@ func run(c *vf.Ctx) {
 		}
 		c.Count("children_run", 1)
 	})
+	<-discDone
 
 	c.SetExhaustive(false)
 	c.Extra("exhaustive_note", fmt.Sprintf("valuenotifier: all sequential histories of length <= %d (2 values, <= 3 listeners per value) were executed; concurrent rounds are sampled schedules", maxLen))
@@ -166,6 +170,7 @@ func run(c *vf.Ctx) {
 	c.Require("vn_seq_redundant_deregister_comparisons", 1000)
 	c.Require("pr_callbacks_registered_during_trigger", 100)
 	c.Require("race_children_run", 3)
+	discRequire(c)
 	c.Assume("sync/atomic counter used as logical clock is linearizable; a goroutine shown in state `select` inside valuenotifier.(*Listener).Wait by runtime.Stack(all) is parked; the Go race detector reports only real races")
 }
 
@@ -202,6 +207,8 @@ func child(c *vf.Ctx) {
 		env := &evEnv{c: c, rep: newReporter(c)}
 		env.countEnumShard(shard, shards)
 		env.countRandShard(shard, shards)
+	case "disc":
+		discChild(c)
 	case "vn-conc", "event", "promise":
 		part, _ := strconv.Atoi(c.ChildArgs[0])
 		race := len(c.ChildArgs) > 1 && c.ChildArgs[1] == "true"
@@ -247,6 +254,8 @@ func replay(c *vf.Ctx) {
 		c.Count("evaluations", 1)
 	case "vn-gate":
 		vnGateChild(c, r.Scenario)
+	case "disc":
+		discReplay(c, r)
 	case "conc":
 		if r.Round == "count" {
 			// deterministic single-goroutine history against the counting model
